@@ -312,6 +312,9 @@ inline std::string g_ip6_body(Tape &t) {
     for (int i = 0; i < n; i++) { if (i) s += '.'; s += t.pick(oct); }
   }
   if (t.chance(1, 10)) s.insert(t.below((uint32_t)s.size() + 1), 1, ":.%"[t.below(3)]);
+  // what other specifications allow inside the brackets and RFC 3986 does not: zone identifiers (RFC 6874 and the
+  // pre-standard spelling), prefix lengths, ports inside
+  if (t.chance(1, 8)) { static const std::vector<std::string> ext = {"%25eth0", "%25", "%251", "%eth0", "%2", "%", "%25e%74h0", "/64", "%25-._~", ":80"}; s += t.pick(ext); }
   return s;
 }
 
@@ -353,7 +356,10 @@ inline u32s g_noise(Tape &t, bool wideExtras, int *arm = nullptr) {
       if (t.chance(1, 4)) pre += "u@";
       std::string close = t.weighted({6, 1, 1}) == 0 ? "]" : (t.coin() ? "" : "]x");
       std::string rest = t.chance(1, 3) ? ":8/p" : "";
-      s = to32(pre + "[" + g_ip6_body(t) + close + rest);
+      std::string body = g_ip6_body(t);
+      // one in three: a well-formed address, half of them followed by what other specifications allow before the ']'
+      if (t.chance(1, 3)) { static const std::vector<std::string> ext = {"%25eth0", "%25", "%251", "%eth0", "%25e%74h0", "/64", "%25-._~", "%25wlan0.1"}; body = g_ipv6_valid(t) + (t.coin() ? t.pick(ext) : std::string()); }
+      s = to32(pre + "[" + body + close + rest);
     } else {
       s = to32(g_uri(t));
     }
